@@ -16,7 +16,7 @@ func init() {
 	Props["C20"] = Prop{
 		Title: "Level names and the level HTTP endpoint set exactly the requested level",
 		Fn:    checkC20,
-		Explanation: "Decides the level name tables by EVALUATING the SSA of Level.String, CapitalString, MarshalText and UnmarshalText (with the helpers and package-level tables they use) on concrete arguments: String/CapitalString for all 256 Level values (in-range values have distinct non-empty lower-case names and their upper-case capitals, every other value prints as Level(%d)/LEVEL(%d)); UnmarshalText on a corpus of ~220 texts built from the names, their upper/title/mixed-case and whitespace/affix variants, the documented aliases, junk, and every string constant occurring in the parsing code (each name in any case parses to its level; besides the names only \"warning\" and the empty string are accepted; every rejected text returns an error and leaves the target untouched); MarshalText/UnmarshalText round-trip; Set and ParseLevel go through UnmarshalText; that every SetLevel reachable from text/HTTP input is dominated by the parse's err == nil and receives the parsed value, and the HTTP handler's shape (single SetLevel under PUT ∧ decode ok; every error body preceded by a 4xx WriteHeader; reported level read after the store; JSON body needs a non-nil level, form needs a non-empty value); LevelFlag registers the variable it returns. " +
+		Explanation: "Decides the level name tables by EVALUATING the SSA of Level.String, CapitalString, MarshalText and UnmarshalText (with the helpers and package-level tables they use) on concrete arguments: String/CapitalString for all 256 Level values (in-range values have distinct non-empty lower-case names and their upper-case capitals, every other value prints as Level(%d)/LEVEL(%d)); UnmarshalText on a corpus of ~220 texts built from the names, their upper/title/mixed-case and whitespace/affix variants, the documented aliases, junk, and every string constant occurring in the parsing code (each name in any case parses to its level; besides the names only \"warning\" and the empty string are accepted; every rejected text returns an error and leaves the target untouched); MarshalText/UnmarshalText round-trip; Set and ParseLevel go through UnmarshalText; that ParseAtomicLevel and AtomicLevel.UnmarshalText, explored with the zapcore parser's outcome forked, store into the atomic level only after the parser succeeded, exactly the parsed value, once, and return nil - a rejected text stores nothing into an existing level and is returned as the error; the receiver's shared cell is replaced only when it was unset; and the HTTP handler's shape (single SetLevel under PUT ∧ decode ok; every error body preceded by a 4xx WriteHeader; reported level read after the store; JSON body needs a non-nil level, form needs a non-empty value); LevelFlag registers the variable it returns. " +
 			"NOT decided: encoding/json, net/http form parsing, Unicode case folding.",
 		Assumptions: commonAssumptions,
 	}
